@@ -1,0 +1,14 @@
+//go:build verif
+
+package gen
+
+import "go.uber.org/thriftrw/compile"
+
+// VerifGoCase exposes goCase to the verification harness (verif build tag only).
+func VerifGoCase(s string) string { return goCase(s) }
+
+// VerifConstantName exposes constantName to the verification harness.
+func VerifConstantName(s string) string { return constantName(s) }
+
+// VerifMangleType exposes a fresh mangler's MangleType to the verification harness.
+func VerifMangleType(spec compile.TypeSpec) string { return newMangler().MangleType(spec) }
